@@ -69,8 +69,33 @@ static void cb_node(Search* s, int kind, Info* info, int depth, Value alpha, Val
     }
 }
 
+static long long g_pv_checked, g_pv_bad, g_exit_count;
+static std::string g_pv_bad_example;
+
+// invariant of theorem C05_pv_legal, validated on the running engine: at the exit of a node the pv in its slot is a
+// playable line from the node's position (checked with the engine's own generator, itself tied to the rules by C01)
+static void check_node_pv(Search* s, Info* info)
+{
+    ++g_pv_checked;
+    Position p = s->_position;
+    for (int i = 0; i < info->_pv_list_length; ++i)
+    {
+        Move m = info->_pv_list[i];
+        Move buf[MAX_MOVES];
+        Move* end = generate_moves(p, p.color(), buf);
+        if (std::find(buf, end, m) == end)
+        {
+            ++g_pv_bad;
+            if (g_pv_bad_example.empty()) g_pv_bad_example = p.fen() + " move#" + std::to_string(i) + " ply" + std::to_string(info->_ply);
+            return;
+        }
+        p.do_move(m);
+    }
+}
+
 static void cb_exit(Search* s, int kind, Info* info, Value ret)
 {
+    if ((++g_exit_count & 15) == 0 || info->_ply == 0) check_node_pv(s, info);
     if (kind == 0 && info->_ply == 0)
     {
         --g_root_nest;
@@ -232,6 +257,7 @@ static std::string op_go(const std::string& rest)
             --i;
         }
     }
+    g_pv_checked = 0; g_pv_bad = 0; g_exit_count = 0; g_pv_bad_example.clear();
     g_visits = 0; g_visits_at_stop = -1; g_stopped_by_us = false; g_root.clear(); g_root_nest = 0; g_max_ply = -1; g_iter_points = 0;
     g_rootpos = &pos;
     std::string fen_before = pos.fen();
@@ -274,7 +300,9 @@ static std::string op_go(const std::string& rest)
     out += " | visits=" + std::to_string(g_visits) + " at_stop=" + std::to_string(g_visits_at_stop) + " maxply=" + std::to_string(g_max_ply) +
            " restored=" + std::to_string(restored ? 1 : 0) + " depthcap=" + std::to_string(search->_search_depth) +
            " nroot=" + std::to_string(search->_root_moves.size()) +
-           " root0=" + (search->_root_moves.empty() ? std::string("-") : pos.uci(search->_root_moves[0]));
+           " root0=" + (search->_root_moves.empty() ? std::string("-") : pos.uci(search->_root_moves[0])) +
+           " pvnodes=" + std::to_string(g_pv_checked) + " badpv=" + std::to_string(g_pv_bad);
+    if (g_pv_bad) { std::string e = g_pv_bad_example; for (char& ch : e) if (ch == ' ') ch = '_'; out += " badpv_at=" + e; }
     return out;
 }
 
